@@ -128,7 +128,7 @@ def _rule_literal_path(prog, roles, em, tbodies):
             obs.append(ok('LITPATH', key, 'Decimal::from_str(input slice); Ok payload moved unchanged into the Number token; Err arm fails (%s)' % cls, c.where()))
     # (2) parser: Literal::Number <- token payload
     n2 = 0
-    for b in roles.parse_bodies:
+    for b in tbodies:
         for bb, i, pl, rv in b.assigns():
             if rv['k'] == 'agg' and rv.get('adt') == 'parser::Literal' and rv.get('variant') == 'Number':
                 n2 += 1
@@ -187,4 +187,31 @@ def rule_intfast(bodies):
                 k += 1
     if not obs:
         obs.append(ok('NUMPATH', 'NUMPATH|intarith', 'no primitive-integer arithmetic in any body that holds Decimal operands'))
+    return obs
+
+
+DECIMAL = 'rust_decimal::Decimal'
+DEC_OPS = re.compile(r'^(std::ops::(Neg::neg|Add::add|Sub::sub|Mul::mul|Div::div|Rem::rem|AddAssign::add_assign|SubAssign::sub_assign|MulAssign::mul_assign|DivAssign::div_assign|RemAssign::rem_assign)'
+                     r'|rust_decimal::Decimal::(checked_\w+|saturating_\w+|abs|round\w*|trunc\w*|floor|ceil|powi|powd|sqrt|set_sign\w*|rescale|normalize))$')
+
+
+def rule_parse_no_eval(roles):
+    """the parser only builds the tree: no arithmetic on a number happens below parse_expression (a sign or an
+    operator folded into a literal at parse time never reaches the operator registry, so a replaced handler is
+    silently not used for it)"""
+    obs = []
+    hits = []
+    for b in roles.token_bodies():
+        for bb, i, pl, rv in b.assigns():
+            if rv['k'] in ('binop', 'unop') and rv.get('aty') == DECIMAL:
+                hits.append((b, bb, '%s on a Decimal' % rv['op']))
+        for c in b.live_calls:
+            nm = c.callee or ''
+            if DEC_OPS.match(nm) and any(DECIMAL in a for a in (c.term['arg_tys'][:1] or [''])):
+                hits.append((b, c.bb, nm))
+    for k, (b, bb, what) in enumerate(hits):
+        obs.append(bad('PARSE-NO-EVAL', 'PARSE-NO-EVAL|%s|#%d' % (b.name, k), 'the parser computes on a number itself (%s): an operator applied at parse time bypasses the operator registry, so the handler registered for it is not the one used' % what,
+                       b.where(bb), body=b.name, bb=bb))
+    if not hits:
+        obs.append(ok('PARSE-NO-EVAL', 'PARSE-NO-EVAL|none', 'no Decimal arithmetic / sign change below parse_expression: operators reach the evaluator as nodes'))
     return obs
